@@ -146,6 +146,9 @@ def programs(ctx, n):
         progs.append(FIXED_STRING_KEYS)
         progs.append(FIXED_REFERENCE_CHAIN)
         progs.append(FIXED_LENGTH_OF_STRING)
+        # length fields of every width class in front of payloads that are not one byte long: a test that compares the
+        # instance it encoded with the decoded one depends on what the encoder stores back into the length member
+        progs.extend(FIXED_LENGTH_WIDTHS)
         for p in pipeline.matrix_programs()[: (6 if ctx.tier == "quick" else 48)]:
             progs.append(dslgen.render(force_options(p)))
         for _ in range(n):
@@ -303,6 +306,39 @@ root packet Note {
 """
 
 
+def _length_width_program(lt, kt):
+    # a length field is only accepted in the root packet
+    return """options {
+    JavaPackage = "com.example.msg";
+    GoPackage = "msg";
+    GoModule = "example.com/msg";
+}
+
+packet Logon {
+    u32 Seq,
+    string User,
+}
+
+packet Ping {
+    u8 Why,
+}
+
+root packet Frame {
+    %s Kind,
+    %s BodyLen @lengthOf(Body),
+    match Kind as Body {
+        7 : Logon,
+        8 : Ping,
+    },
+    u16 Trailer,
+}
+""" % (kt, lt)
+
+
+FIXED_LENGTH_WIDTHS = [_length_width_program("u8", "u16"), _length_width_program("u32", "u8"), _length_width_program("i64", "i16"),
+                       _length_width_program("u8", "u16").replace("match Kind as Body {\n        7 : Logon,\n        8 : Ping,\n    },", "Logon Body,")]
+
+
 def write_files(base, files):
     for name, text in files.items():
         p = os.path.join(base, name)
@@ -372,7 +408,7 @@ def codec_build_errors(lang, files, real):
     for text in texts:
         lines = text.split("\n")
         for i, l in enumerate(lines):
-            m = LOC[lang].match(l)
+            m = LOC[lang].match(l.lstrip() if lang == "python" else l)
             if not m:
                 continue
             f, no = m.group(1), int(m.group(2))
@@ -400,9 +436,11 @@ def codec_build_errors(lang, files, real):
             elif lang == "python":
                 if f.endswith("_test.py") or f.rsplit("/", 1)[-1] not in {k.rsplit("/", 1)[-1] for k in files}:
                     continue
-                if real.get("build") != "error":
-                    continue       # a traceback through the module while a test RUNS is not a build error
-                msg = lines[-1] if lines else ""
+                if real.get("build") != "error" and not re.search(r"NameError: name '\w+' is not defined", text):
+                    # a traceback through the module while a test RUNS is not a build error — except a name that is bound nowhere:
+                    # Python resolves names when the statement runs, so that is the form an undeclared identifier takes there
+                    continue
+                msg = next((x for x in lines if re.match(r"\w*(Error|Exception)\b", x)), lines[-1] if lines else "")
             key = (f.rsplit("/", 1)[-1], no, msg[:80])
             if key not in seen:
                 seen.add(key)
